@@ -1124,18 +1124,22 @@ func (s *wg) assignTo(lhs ast.Expr, tok token.Token, rs string, rt *ty, n ast.No
 //
 // A local record (or the record that stands for a *T parameter) is a value; x.f.g = v rebinds x to the record with that
 // field replaced (wset_T_f, emitted at the head of the muxer part). Where the path goes through a pointer-typed field the
-// pointee is read with wneed (nil = panic) and the pointer is set to Some of the updated pointee. Two pointer-typed
-// paths can hold the SAME pointer: the translator tracks, for every pointer-typed path it has seen assigned, where the
-// pointer may come from (s.prov: "nil", "fresh" = allocated by this statement, "alias:<path>" = a copy of the pointer
-// then held by <path>, "unknown"); a path never assigned holds its own pointer. A store through a pointer is written to
-// every path that provably holds the same pointer (pkt.AdaptationField = d.AdaptationField; pkt.AdaptationField.
-// StuffingLength = n rebinds BOTH pkt and d) and is refused where that cannot be decided statically (alias and fresh
-// merged by an if, an unknown origin, a path that may be nil while another path aliased to it is live). Pointers are
-// copied only by `x.f = y.g`, by a composite literal / an allocating call assigned to a field, or by passing them to a
-// translated function (which cannot keep them: stores through parameters are refused there); every other copy of a
-// pointer is refused, so no alias escapes this table. Pointers of one pointee type reached from the parameters by two
-// different paths could be equal on entry: a store through such a path is refused when the function mentions another
-// path of the same pointee type (checked in front of the translation, muxer part).
+// pointee is read with wneed (nil = panic) and the pointer is set to Some of the updated pointee.
+//
+// Two pointer-typed paths can hold the SAME pointer (pkt.AdaptationField = d.AdaptationField). That is decided at RUN time
+// by a generated boolean: every pointer-typed field f of a local record v bound to a composite literal gets the ghost
+// variable sh_v_f_ ("v.f holds the pointer of the path recorded for it"): false after the literal (nil or a fresh
+// allocation), true after `v.f = p.g` for a field path p.g of a pointer parameter (s.prov[v.f] = "share:p.g", one target
+// per path), false again after `v.f = nil / &T{..} / an allocating call`. A store through v.f rebinds v and, IF the ghost
+// says so, the record p as well (pkt.AdaptationField.StuffingLength = n updates pkt and - when shared - d); a store
+// through p.g rebinds p and every live local record whose ghost says it shares p.g. The ghost is an ordinary variable:
+// conditional blocks and loops return it like any other variable they assign, so the merge of a branch that copied the
+// pointer with one that allocated is exact (no static approximation). Pointers are copied ONLY by these forms, by passing
+// them to a translated function (which cannot keep them: stores through parameters are refused there) and by wneed reads;
+// a pointer copied into a variable, taken from a local record's field, stored into a nested record, or a record with
+// pointer fields that does not come from a composite literal ("unknown": stores through it are refused) leave the grammar.
+// Pointers of one pointee type reached from the parameters by two different paths could be equal on entry: a store through
+// such a path is refused when the function mentions another parameter-rooted path of the same pointee type (scanPaths).
 
 var wgSetters = map[string]bool{}
 
@@ -1491,10 +1495,20 @@ func (s *wg) hoistState(x *ast.CallExpr, f *ast.SelectorExpr, xt *ty) ast.Expr {
 	return &ast.Ident{NamePos: x.Pos(), Name: r}
 }
 
+// emitWgSetters: one setter per field of every record one of whose fields is stored into (the whole family, so that the
+// proofs can name a setter whether or not the current source still uses it).
 func emitWgSetters(p *pkg) string {
-	var keys []string
+	structs := map[string]bool{}
 	for k := range wgSetters {
-		keys = append(keys, k)
+		structs[strings.SplitN(k, ".", 2)[0]] = true
+	}
+	var keys []string
+	for sn := range structs {
+		for _, f := range p.structs[sn].Fields.List {
+			for _, fid := range f.Names {
+				keys = append(keys, sn+"."+fid.Name)
+			}
+		}
 	}
 	sort.Strings(keys)
 	t := &tr{p: p, fn: "setters", env: map[string]*ty{}}
